@@ -8,6 +8,7 @@ EXPLANATION = (
     "(the Plan variants for which plan_introspection::plan_contains_write returns true), and must recurse (call query_contains_write) in every arm "
     "where the planner recurses into a nested query; its wildcard arm may cover only read-only variants. Row / value / error-category parity between "
     "the two APIs is runtime behaviour and is not decided."
+    " C34.4: json_to_query_value (parameters) keeps every array element and every object entry."
     " C34.3: every C-API function that rewinds a statement handle's cursor also assigns `executed` on that path (false = re-arm, true = just executed), so a reset or rebound statement is evaluated again on the current graph."
     " C34.2: in the C API's read path every value pushed into an outgoing row is dominated by the Ok arm of Value::reify / Row::reify."
 )
@@ -143,6 +144,7 @@ def run(ctx):
                    "ids by the C API while the Rust API returns the materialised entity", p.loc())
 
     stmt_rearm_rule(ctx)
+    param_conv_rule(ctx)
 
 STMT = "nervusdb_capi::StmtHandle"
 
@@ -190,3 +192,36 @@ def stmt_rearm_rule(ctx, rid="C34.3"):
                        "%s rewinds the statement's cursor on a path that neither clears nor sets `executed`: the next step replays rows cached by an "
                        "earlier execution instead of evaluating on the current graph" % fn, "%s:%d" % (b.file, b.line_of_block(r)))
     ctx.floor(rid, "cursor rewinds in the C API", n, 4)
+
+
+JSON_CONV = "nervusdb_capi::json_to_query_value"
+
+
+def param_conv_rule(ctx, rid="C34.4"):
+    """the JSON -> value conversion of parameters keeps every element of a list and every entry of a map"""
+    from .. import paths
+    ctx.rule(rid, "json_to_query_value keeps every array element and every object entry: from the `Some` arm of each element loop no path returns to the iterator "
+             "without passing the push / insert (error exits aside) — a parameter map that loses entries makes keys(), size() and map equality differ from the Rust API")
+    b = ctx.body(JSON_CONV)
+    fails = paths.fail_blocks(b)
+    nexts = [c for c in b.calls() if c.declared == "core::iter::traits::iterator::Iterator::next"]
+    sinks = [c for c in b.calls() if c.name.endswith(("Vec::<T, A>::push", "BTreeMap::<K, V, A>::insert"))]
+    n = 0
+    for sk in sinks:
+        hs = [h for h in nexts if sk.bb in b.reachable([h.bb]) and h.bb in b.reachable([sk.bb])]
+        if not hs:
+            continue
+        h = min(hs, key=lambda h: len([x for x in b.reachable([h.bb]) if h.bb in b.reachable([x])]))
+        t = b.term(h.target) if h.target is not None else None
+        if not t or t[0] != "switch":
+            continue
+        some = dict((k, tb) for k, tb in t[2]).get(1, None)
+        if some is None:
+            continue
+        n += 1
+        back = h.bb in (b.reachable([some], avoid={sk.bb} | fails) | {some})
+        ctx.instance(rid, "json_to_query_value: %s reached for every element=%s" % (sk.name.split("::")[-1], not back))
+        ctx.oblige(not back, rid, "%s:json_to_query_value:%s#%d:element-skipped" % (rid, sk.name.split("::")[-1], sk.ordinal),
+                   "the parameter conversion can skip an element of a JSON %s: the value the query sees is not the value the caller passed" %
+                   ("object" if sk.name.endswith("insert") else "array"), sk.loc())
+    ctx.floor(rid, "element loops in json_to_query_value", n, 2)
